@@ -14,7 +14,7 @@ import (
 )
 
 func init() {
-	register("C02", "Decides necessary conditions of the fixpoint clause only: in the converged state (every eligible node holds exactly one up-to-date pod, no other daemon pod exists) a sync plans nothing — (Q1) every node that can reach Result.PodsToCreate was appended under the fact `the node's pod is nil`; (Q2) every node that can reach Result.PodsToDelete was appended under the fact `the up-to-date comparison of that node's pod is false`; (Q3) every pod that can reach the clean-up list is appended under `phase Failed`, under `node not in the eligible map`, or is a non-first element of a per-node duplicate list; (Q4) the planner of replica sets that are neither active nor canary stores no pod operation. Reaching that state within a bounded number of rounds (liveness over fair histories of two controllers and the kubelet) is NOT decided.", runC02)
+	register("C02", "Decides necessary conditions of the fixpoint clause only: in the converged state (every eligible node holds exactly one up-to-date pod, no other daemon pod exists) a sync plans nothing — (Q1) every node that can reach Result.PodsToCreate was appended under the fact `the node's pod is nil`; (Q2) every node that can reach Result.PodsToDelete was appended under the fact `the up-to-date comparison of that node's pod is false`; (Q3) every pod that can reach the clean-up list is appended under `phase Failed`, under `node not in the eligible map`, or is a non-first element of a per-node duplicate list; (Q4) the planner of replica sets that are neither active nor canary stores no pod operation; (Q5) status.canary, whose nodes the active replica set leaves alone, is decided on every path to the status write, so a stale canary cannot keep nodes out of the rollout for ever. Reaching that state within a bounded number of rounds (liveness over fair histories of two controllers and the kubelet) is NOT decided.", runC02)
 }
 
 func ersReconcile(r *Run) (*ssa.Function, map[*ssa.Function]bool) {
@@ -165,6 +165,9 @@ func runC02(r *Run) {
 	}
 	c02Cleanup(r, reach)
 	c02Unknown(r, reach)
+	r.RuleDoc("C02.Q5", "a canary recorded in the status cannot outlive its cause: status.canary is decided on every path to the status write (stale canary nodes would stay hidden from the rolling update for ever)")
+	r.Floor("C02.Q5", 1)
+	c14CanaryAlwaysDecided(r, "C02.Q5")
 }
 
 func truncate(s string, n int) string {
